@@ -117,9 +117,27 @@ def pingIds (n : Nat) : String :=
   let ids := go n {} []
   if ids.Nodup ∧ ids.all (· % 2 = 0) ∧ n ≤ ids.length then "pingids ok" else "pingids bad " ++ toString ids
 
+/-- `burst n`: n callers issue a request each on a fresh connection; all are answered, newest first -/
+def burstN (n : Nat) : String :=
+  let rec issue (k : Nat) (w : Wire) (ids : List (Nat × Nat)) : Wire × List (Nat × Nat) :=
+    match k with
+    | 0 => (w, ids)
+    | k + 1 =>
+      let caller := n - k
+      match wreq w caller .metadata {} with
+      | (w', .issued id) => issue k w' ((caller, id) :: ids)     -- newest first
+      | (w', _) => issue k w' ids
+  let (w1, ids) := issue n {} []
+  let okN := (ids.foldl (fun (acc : Wire × Nat) ci =>
+      match wresp acc.1 ci.2 .metaAck 0 0 with
+      | (w', .delivered c _) => (w', if c = ci.1 then acc.2 + 1 else acc.2)
+      | (w', _) => (w', acc.2)) (w1, 0)).2
+  if okN = n then s!"burst ok {okN}" else s!"burst {okN} of {n}"
+
 def step (d : DSt) (line : String) : DSt × String :=
   match words line with
   | ["reset"] => ({}, "ok")
+  | ["burst", n] => (d, burstN (nat n))
   | ["pingids", n] => (d, pingIds (nat n))
   | _ =>
     if d.dead then (d, "dead") else
